@@ -41,6 +41,9 @@ type HarnessSpec struct {
 	ReplayRepeat    int                       `json:"replay_repeat,omitempty"` // native replays per counterexample (order-dependent behaviour shows up only in some runs)
 	TimeoutMs       int                       `json:"solver_timeout_ms,omitempty"`
 	Claim           string                    `json:"claim,omitempty"`
+	Fixtures        int                       `json:"fixtures,omitempty"`          // translator validation: number of /repo/testdata fixtures sampled (quick); -1 = all
+	FixturesThorough int                      `json:"fixtures_thorough,omitempty"` // same, thorough tier
+	FixtureMaxBytes int                       `json:"fixture_max_bytes,omitempty"`
 }
 
 type CheckSpec struct {
@@ -126,6 +129,25 @@ func cmdCheck(args []string) {
 	var known []KnownFinding
 	loadJSON(filepath.Join(verifDir, "known_findings.json"), &known)
 
+	for _, h := range spec.Harnesses {
+		nfix := h.Fixtures
+		if *tier == "thorough" && h.FixturesThorough != 0 {
+			nfix = h.FixturesThorough
+		}
+		if nfix == 0 || (*onlyH != "" && !strings.Contains(h.Fn, *onlyH)) {
+			continue
+		}
+		dir, n, err := genFixtures(*repo, nfix, seed, h.FixtureMaxBytes)
+		if dir != "" {
+			genDirs = append(genDirs, dir)
+			defer cleanupGen()
+		}
+		if err != nil {
+			fatal2("fixtures: %v", err)
+		}
+		fmt.Printf("translator validation: %d fixtures of %s/testdata, native outcomes computed\n", n, *repo)
+		break
+	}
 	ov, err := loadOverlay(*repo, filepath.Join(verifDir, "harness"))
 	if err != nil {
 		fatal2("overlay: %v", err)
@@ -356,15 +378,21 @@ func cmdCheck(args []string) {
 
 	// ---- evidence ----
 	ev := buildEvidence(id, *tier, seed, spec, reports, inconclusive, len(newViolations), tracesValidated, unconfirmed, loadTime, time.Since(start), knownPrinted)
-	os.MkdirAll(filepath.Join(verifDir, "evidence"), 0o755)
+	evDir := filepath.Join(verifDir, "evidence")
+	if d := os.Getenv("VERIF_EVIDENCE_DIR"); d != "" {
+		evDir = d // seed evaluation against a scratch worktree must not overwrite the evidence of the real tree
+	}
+	os.MkdirAll(evDir, 0o755)
 	b, _ := json.MarshalIndent(ev, "", " ")
-	os.WriteFile(filepath.Join(verifDir, "evidence", id+".json"), b, 0o644)
+	os.WriteFile(filepath.Join(evDir, id+".json"), b, 0o644)
 
 	for _, c := range newViolations {
 		fmt.Printf("violation: %s %s: %s at %s\n  input: %s\n  native: %s\n", c.v.Kind, c.v.ID, c.v.Msg, c.v.Site, renderModel(c.v.Model), firstLine(c.output))
 		fmt.Printf("VIOLATION property=%s replay=%s\n", id, c.replay)
 	}
 	if len(newViolations) > 0 {
+		rp.cleanup()
+		cleanupGen()
 		os.Exit(1)
 	}
 	if len(inconclusive) > 0 {
@@ -377,6 +405,8 @@ func cmdCheck(args []string) {
 			fmt.Printf("INCONCLUSIVE x%d: %s\n", inconclusive[k], k)
 		}
 		fmt.Printf("check %s inconclusive (no verdict)\n", id)
+		rp.cleanup()
+		cleanupGen()
 		os.Exit(2)
 	}
 	fmt.Printf("check %s passed (%s tier, %.1fs)\n", id, *tier, time.Since(start).Seconds())
@@ -400,7 +430,16 @@ func reorder(args []string) []string {
 	return append(flags, pos...)
 }
 
+var genDirs []string
+
+func cleanupGen() {
+	for _, d := range genDirs {
+		os.RemoveAll(d)
+	}
+}
+
 func fatal2(f string, a ...interface{}) {
+	cleanupGen()
 	fmt.Fprintf(os.Stderr, f+"\n", a...)
 	os.Exit(2)
 }
@@ -626,6 +665,16 @@ func (r *replayer) build(pkg string) (string, error) {
 	hdir := filepath.Join(verifDir, "harness")
 	replace := map[string]string{}
 	var harnessFns []string
+	for _, extra := range extraHarnessDirs {
+		filepath.Walk(extra, func(p string, info os.FileInfo, err error) error {
+			if err != nil || info.IsDir() || !strings.HasSuffix(p, ".go") {
+				return nil
+			}
+			rel, _ := filepath.Rel(extra, p)
+			replace[filepath.Join(r.repo, rel)] = p
+			return nil
+		})
+	}
 	filepath.Walk(hdir, func(p string, info os.FileInfo, err error) error {
 		if err != nil || info.IsDir() || !strings.HasSuffix(p, ".go") {
 			return nil
